@@ -319,7 +319,7 @@ def posterior_case(mc, pr, case):
         nums.update({'pDC_chain': pm, 'pDC_standard_error': pse, 'pDC_reported': float(out['pDC']) / M.shape[1], 'pDC_expected': want_pdc})
         if abs(nums['pDC_reported'] - pm) > 1e-12:
             return 'reported double-couple fraction %r is not the share %r of double-couple entries' % (nums['pDC_reported'], pm), nums
-        if abs(pm - want_pdc) > 5 * pse + 0.01:
+        if abs(pm - want_pdc) > 6 * pse + 0.01:
             return ('double-couple fraction of the chain %.4f (standard error %.4f) against %.4f from likelihood-weighted prior sampling'
                     % (pm, pse, want_pdc)), nums
         # within each model
@@ -327,13 +327,14 @@ def posterior_case(mc, pr, case):
             if sel.sum() > 2000:
                 vm, vse = batch_mean(((M0.T.dot(M)).flatten() ** 2)[sel])
                 nums['E_f_%s_entries' % name] = vm
-                if abs(vm - want) > 5 * vse + 0.01:
+                if abs(vm - want) > 6 * vse + 0.01:
                     return ('expectation of (m.m0)^2 over the %s entries %.4f (standard error %.4f) against %.4f from likelihood-weighted '
                             'prior sampling of that model' % (name, vm, vse, want)), nums
     else:
         want_f = ref['f_dc'] if case['kwargs'].get('dc') else ref['f_mt']
     nums['E_f_expected'] = want_f
-    if abs(fm - want_f) > 5 * fse + 0.01:
+    # (the overall expectation of a trans-dimensional chain also moves with the slowly mixing model indicator: wider band)
+    if abs(fm - want_f) > 7 * fse + 0.02:
         return ('chain expectation of (m.m0)^2 %.4f (standard error %.4f) against %.4f from likelihood-weighted prior sampling'
                 % (fm, fse, want_f)), nums
     return None, nums
@@ -392,7 +393,7 @@ def run(R):
     proved = R.prove()
     R.assumptions += ['"samples the posterior" = detailed balance (C05) + stationarity theorem (finite state space) + assumed ergodicity and '
                       'generator law; the statistical comparison with likelihood-weighted prior sampling (both tiers, fixed numpy seeds, '
-                      'alarm at 6 batch-means standard errors + 0.02) is a validation, not a theorem',
+                      'alarm at 6 batch-means standard errors + 0.01, 7 + 0.02 for the overall expectation) is a validation, not a theorem',
                       'accept/reject decisions are inputs of the model; the harness steers numpy.random.rand inside _acceptance_check and reads '
                       'the decision actually taken from the object identity of the current state',
                       'multiple-try batches are not produced on the pure-Python path (one proposal per iteration), so the multiple-try scan is '
